@@ -17,11 +17,12 @@
     * `embT_tgtL` (DrxProofs/LinkFlow2Tree.lean): the reconstructed tree is the image `EmbTs` of the source statements.
 
   Fragment (`FragScriptT`, decidable): plain scripts, `on` handlers, bodies built from agent-link's simple statements
-  (`set <var> = e`, command calls, `exit`) with `if c then … [else …] end if`, `repeat while c`, `repeat with <local> = a [down] to b`
-  nested to any depth, conditions / bounds in `FragE`; `okAmbs`: no `repeat while` directly preceded by a `set` statement whose
-  body ends with `set _ = <literal> + _`, and no `repeat while` condition with a literal left operand.
-  NOT covered: `repeat with … in`, loop variables other than locals, `exit repeat`, `tell`, text generation / read-back of the
-  structured statements (agent-link's text chain `L6m` is for flat bodies).
+  (`set <target> = e` for every target of `FragLv`, command calls, `exit`) with `if c then … [else …] end if`, `repeat while c`,
+  `repeat with <local> = a [down] to b` nested to any depth, conditions / bounds / right-hand sides in agent-link's `FragE`
+  (since `FragE0 := FragE`: EVERY expression form of the C02 link fragment); `okAmbs`: no `repeat while` directly preceded by a
+  `set` statement whose body ends with `set _ = <literal> + _`, and no `repeat while` condition with a literal left operand.
+  NOT covered: `repeat with … in`, loop variables other than locals, `exit repeat`, `tell`.  The text generation / read-back of
+  these trees is `T_C02_structured` / `T_C02_all` in DrxProps/C02Link.lean (agent-link).
 -/
 import DrxProofs.LinkFlow2Link
 import DrxProofs.LinkFlowGuard
